@@ -452,6 +452,7 @@ void joinTask(int id) {
 static void taskTrampoline() {
   int id = g.cur;
   Task& t = g.t[id];
+  errno = 0;      /* a new thread starts with a clean errno (the restore in switchTo only runs for tasks that have been switched out before) */
   t.fn(t.arg);
   t.state = 3;
   logEvent("finish", id);
